@@ -272,6 +272,24 @@ CLAIMED['C20'] = dict(
          'semantics, map width 128 and patch inside the map at proof level (other widths bounded), generated flag enums bounded only.',
     design='§6 C20')
 
+CLAIMED['C05'] = dict(
+    text='For each of the 52 (table, class) pairs the REAL write_fields and read - definition-driven or hand-written - are '
+         'executed symbolically over ONE symbolic chronological version index ranging over all 250 supported versions (the '
+         'ladders in get_definition/read/write_fields split it into regions) with symbolic field values over each wire type\'s '
+         'domain: every field reads back equal, the payload is consumed exactly, the id is a non-negative int equal to the '
+         'instance\'s, __repr__ raises on no path. Hand-written pairs (MapPacket, PlayerListItemPacket with its five actions and '
+         'properties, SpawnObjectPacket, CombatEventPacket with its three events, FacePlayerPacket, PluginResponsePacket, '
+         'SoundEffect position/pitch, explosion records) are covered with every optional-field combination. User-defined '
+         'packets: Packet.write_fields/read for a definition list of ANY length with abstract field types (for-loop invariant: '
+         'field j is handled j-th, once, with attribute j).',
+    note='Field types enter through their S2/S3 contracts (C02/C03) and the C04 inverse contracts, not their bodies; lists '
+         'inside hand-written packets are unrolled for lengths 0..2 only (longer: bounded); NBT opaque; floats as reals with '
+         'wire-representable Angle/FixedPoint/Pitch values; map offsets 0..127; SpawnObjectPacket.__repr__ only in the bounded '
+         'part (its enum lookup formats the concrete protocol number); name_from_value/nbt_to_snbt through contracts. Bounded: '
+         'byte-level round trips on the real code for a sixth of the supported versions (all in the thorough tier), generated '
+         'definitions incl. nested arrays.',
+    design='§6 C05')
+
 PLANNED = {
     'C01': 'check not built yet (DESIGN §6 C01): frame contracts on Packet.write/_write_buffer/read_packet',
     'C02': 'check not built yet (DESIGN §6 C02)',
